@@ -21,9 +21,9 @@ from vlib import ToolError, log
 
 TIERS = {
     "quick": {"C05": dict(shards=16, positions=5, depth=3, validate=1, cap=30000, max_men=7, fixed=4, win_positions=400, win_depth=3,
-                     bell_positions=25, bell_kpk=500, bell_depth=3),
+                     bell_positions=25, bell_kpk=500, bell_depth=3, bell_special=1),
               "C06": dict(shards=16, positions=2, depth=3, validate=0, cap=6000, max_men=6, kstep=1)},
-    "thorough": {"C05": dict(shards=16, positions=150, depth=3, validate=6, cap=60000, max_men=8, fixed=5, win_positions=4000, win_depth=4, bell_positions=400, bell_kpk=6000, bell_depth=3,
+    "thorough": {"C05": dict(shards=16, positions=150, depth=3, validate=6, cap=60000, max_men=8, fixed=5, win_positions=4000, win_depth=4, bell_positions=400, bell_kpk=6000, bell_depth=3, bell_special=8,
                          steps=dict(cases=96, depth=3, heur_ops=20000)),
                  "C06": dict(shards=16, positions=40, depth=3, validate=0, cap=12000, max_men=7, kstep=1, aeq_positions=250, aeq_samples=200,
                              steps=dict(cases=96, depth=3, two=True))},
@@ -204,6 +204,23 @@ def run(prop, tier, seed):
             for out, (m, k) in vlib.parallel(bshard, range(T["shards"])):
                 bev += m
                 bk += k
+            # tactical roots: positions in which a special move (castling, en passant, promotion, discovered / double check)
+            # mates, or is the mating reply to avoid - forward pruning and move classification are wrong exactly there
+            def tshard(i):
+                sp = os.path.join(work, "tactical_%d.ndjson" % i)
+                vlib.run_harness(exe, ["search-mate", "--seed", seed * 71 + i, "--mate1", 0, "--defend", 10 ** 6, "--special", T.get("bell_special", 1), "--out", sp],
+                                 stdout_path=os.path.join(work, "tstdout_%d.txt" % i), timeout=3600)
+                fl2 = os.path.join(work, "tactical_%d.fens" % i)
+                with open(fl2, "w") as f:
+                    for l in open(sp):
+                        f.write(json.loads(l)["fen"] + "\n")
+                out2 = os.path.join(work, "bell_t%d.ndjson" % i)
+                return _bellman(exe, work, ["search-bellman", "--fens", fl2, "--maxdepth", 2, "--out", out2], "t%d" % i, R)
+            tev = tk = 0
+            for m, k in vlib.parallel(tshard, range(T["shards"])):
+                tev += m
+                tk += k
+            R.coverage["minimax_recursion_tactical_roots"] = {"positions_x_depths": tev, "successor_searches": tk}
             R.coverage["minimax_recursion"] = {"positions_x_depths": bev, "successor_searches": bk,
                                                "note": "V(p,d) = max -V(p.m,d-1) over separate fresh full-window searches; game positions of every phase "
                                                        "plus the family king + pawn on the seventh rank (+ one man) against king"}
